@@ -24,7 +24,7 @@ func init() {
 	register(&Property{
 		ID:      "C09",
 		NeedSSA: true,
-		Decided: "Only the clause `equally when the merged row group is written to a file` is decided, structurally: (marker) mergedRowGroup and sortedSegmentRowGroup, dedup and converted wrappers do not carry the chunk-transparency marker, so the writer reads them through Rows(); mergedRowGroup declares its own segment accessor returning nil although it embeds a type that opts in; sortedSegmentRowGroup returns no segments on the duplicate-dropping path (the return of its segments is dominated by the test of dropDuplicatedRows); (bounds) the function that computes the key range of a sorted row group takes the direction of each sorting column from that column, not from a fixed one; (errors) the merge readers propagate read errors of their inputs (shared with C14.errflow).",
+		Decided: "Only the clause `equally when the merged row group is written to a file` is decided, structurally: (marker) mergedRowGroup and sortedSegmentRowGroup, dedup and converted wrappers do not carry the chunk-transparency marker, so the writer reads them through Rows(); mergedRowGroup declares its own segment accessor returning nil although it embeds a type that opts in; sortedSegmentRowGroup returns no segments on the duplicate-dropping path (the return of its segments is dominated by the test of dropDuplicatedRows); (bounds) the function that computes the key range of a sorted row group takes the direction of each sorting column from that column, not from a fixed one; (errors) the merge readers propagate read errors of their inputs (shared with C14.errflow). (bounds, cont.) the key range of a sorted row group consults the null counts of the column index and NullsFirst() of the sorting column.",
 		NotDecided: "sortedness, multiset equality, stability and deduplication of the merged sequence: the loser tree, run detection, range refinement and the page-boundary cut are value-dependent (a cut comparison that is `>=` instead of `>` is not visible structurally).",
 		Assumptions: []string{"method sets are computed by go/types, promotion included"},
 		Run:         runC09,
